@@ -832,4 +832,197 @@ theorem c05_array_drops_child_path (cfg : Cfg) :
       = [[.idx 0]] := by
   simp [run, engine, V.isNilLike, extractArray, validateArray, sizeIssues, arrayElems, acc, ofIssues, Res.issues, mk]
 
+/-! ### several faults; every issue of a member, not only the first -/
+
+/-- **C05, k faults**: if the only members that reject are those asked about the parts of `v` at the
+    segments in `S` (every other asked member accepts), every reported path is the root, a single own
+    key, or starts with one of the faulty segments — whatever the number of issues each faulty member
+    reports. `c05_single_fault` is the case `S = [s₀]`. -/
+theorem c05_multi_fault (cfg : Cfg) (env : Env) (n : Node) (v : V) (S : List Seg)
+    (hrec : match n with | .record .. => cfg.recordKeyPath = true | _ => True)
+    (hset : match n with | .set .. => ∀ e ys, v ≠ .slice e ys | _ => True)
+    (hother : ∀ s x m, Child v s x → s ∉ S → errs env m x = [])
+    (hkeys : ∀ (k x : V) m, Child v k.seg x → k.seg ∉ S → errs env m k = [])
+    (hself : ∀ m, errs env m v = []) :
+    ∀ i ∈ (run cfg env n v).issues, i.path = [] ∨ (∃ s, i.path = [s]) ∨ ∃ s ∈ S, ∃ p, i.path = s :: p := by
+  intro i hi
+  cases c05_paths_from_members cfg env n v hrec hset i hi with
+  | root h => exact Or.inl h
+  | own s h => exact Or.inr (Or.inl ⟨s, h⟩)
+  | child s x m c hc hmem h =>
+    by_cases hs : s ∈ S
+    · exact Or.inr (Or.inr ⟨s, hs, c.path, h⟩)
+    · rw [hother s x m hc hs] at hmem; cases hmem
+  | same m c hmem h => rw [hself m] at hmem; cases hmem
+  | keyed k x m c hc hmem h =>
+    by_cases hs : k.seg ∈ S
+    · exact Or.inr (Or.inr ⟨k.seg, hs, c.path, h⟩)
+    · rw [hkeys k x m hc hs] at hmem; cases hmem
+
+/-- the schema a tuple asks about position `j`: the `j`-th item, else the rest schema. -/
+def memAt : List Mid → Option Mid → Nat → Option Mid
+  | m :: _, _, 0 => some m
+  | _ :: ms, r, j + 1 => memAt ms r j
+  | [], r, _ => r
+
+theorem prepend_paths (s : Seg) (cs : List Issue) :
+    (cs.map (prepend s)).map (·.path) = cs.map (fun c => s :: c.path) := by
+  simp [List.map_map, prepend, Function.comp_def]
+
+/-- the issues of the element at `k + j`, ALL of them, in order, each behind its own index, are a
+    sub-list of what the element loop collects. -/
+theorem tupleElems_block (env : Env) (k : Nat) (ms : List Mid) (r : Option Mid) (xs : List V)
+    (j : Nat) (x : V) (mem : Mid) (hj : getIdx xs j = some x) (hm : memAt ms r j = some mem) :
+    ((errs env mem x).map (prepend (.idx (k + j)))).Sublist (tupleElems env k ms r xs) := by
+  induction xs generalizing k ms j with
+  | nil => simp [getIdx] at hj
+  | cons y ys ih =>
+    cases j with
+    | zero =>
+      simp only [getIdx, Option.some.injEq] at hj; subst hj
+      cases ms with
+      | cons m ms =>
+        simp only [memAt, Option.some.injEq] at hm; subst hm
+        simp only [tupleElems, Nat.add_zero]
+        exact List.sublist_append_left _ _
+      | nil =>
+        simp only [memAt] at hm; subst hm
+        simp only [tupleElems, Nat.add_zero]
+        exact List.sublist_append_left _ _
+    | succ j =>
+      simp only [getIdx] at hj
+      have e : k + (j + 1) = k + 1 + j := by omega
+      rw [e]
+      cases ms with
+      | cons m ms =>
+        simp only [memAt] at hm
+        simp only [tupleElems]
+        exact (ih (k + 1) ms j hj hm).trans (List.sublist_append_right _ _)
+      | nil =>
+        cases r with
+        | none => simp [memAt] at hm
+        | some r =>
+          simp only [tupleElems]
+          exact (ih (k + 1) [] j hj (by simpa [memAt] using hm)).trans (List.sublist_append_right _ _)
+
+/-- **C05, tuple, every issue of an element**: when the tuple has an admissible length, ALL issues the
+    schema of position `j` reports for element `j` — however many — appear among the tuple's issues, in
+    order, each with path `[j] ++ its own path` (no issue of the element is lost, none gets a sibling's
+    path). -/
+theorem c05_tuple_all_issues (cfg : Cfg) (env : Env) (m : Mods) (items : List Mid) (req : Nat)
+    (rest : Option Mid) (cs : List SizeCk) (v : V) (xs : List V)
+    (hv : v.isNilLike = false) (hx : extractTuple v = some xs)
+    (hreq : req ≤ xs.length) (hmax : rest.isSome = true ∨ xs.length ≤ items.length)
+    (j : Nat) (x : V) (mem : Mid) (hj : getIdx xs j = some x) (hm : memAt items rest j = some mem) :
+    ((errs env mem x).map (fun c => Seg.idx j :: c.path)).Sublist
+      ((run cfg env (.tuple m items req rest cs) v).issues.map (·.path)) := by
+  have hb := tupleElems_block env 0 items rest xs j x mem hj hm
+  rw [Nat.zero_add] at hb
+  have h1 : ¬ xs.length < req := by omega
+  have h2 : ¬ ((rest.isNone && decide (xs.length > items.length)) = true) := by
+    rcases hmax with h | h
+    · cases rest <;> simp_all
+    · simp; intro _; omega
+  simp only [run, engine, hv, Bool.false_eq_true, ↓reduceIte, hx, validateTuple, h1, h2]
+  rw [← prepend_paths]
+  cases ht : tupleElems env 0 items rest xs with
+  | nil =>
+    rw [ht] at hb
+    rw [List.sublist_nil.1 hb]
+    exact List.nil_sublist _
+  | cons a t =>
+    rw [ht] at hb
+    simpa [Res.issues] using hb.map (·.path)
+
+/-- **C05, struct, every issue of a field**: ALL issues the schema of a field the struct has reports
+    appear among the struct's issues, in order, each with path `[field] ++ its own path`. -/
+theorem structFields_block (env : Env) (fs : List (Nat × V)) (shape : List Field) (f : Field) (x : V)
+    (hf : f ∈ shape) (hl : lookupField f.name fs = some x) :
+    ((errs env f.m x).map (prepend (.key f.name))).Sublist (structFields env fs shape) := by
+  induction shape with
+  | nil => cases hf
+  | cons g rest ih =>
+    simp only [structFields]
+    rcases List.mem_cons.1 hf with rfl | h
+    · rw [hl]; exact List.sublist_append_left _ _
+    · exact (ih h).trans (List.sublist_append_right _ _)
+
+theorem c05_struct_all_issues (cfg : Cfg) (env : Env) (m : Mods) (ptrC : Bool) (sid : Nat)
+    (shape : List Field) (v : V) (fs : List (Nat × V)) (hv : v.isNilLike = false)
+    (hx : extractStruct sid v = some fs) (f : Field) (x : V) (hf : f ∈ shape)
+    (hl : lookupField f.name fs = some x) :
+    ((errs env f.m x).map (fun c => Seg.key f.name :: c.path)).Sublist
+      ((run cfg env (.struct m ptrC sid shape) v).issues.map (·.path)) := by
+  have hb := structFields_block env fs shape f x hf hl
+  simp only [run, engine, hv, Bool.false_eq_true, ↓reduceIte, hx, validateStruct, ofIssues_issues]
+  rw [← prepend_paths]
+  exact hb.map (·.path)
+
+/-- object: the issues of a present field (not an explicit nil of an exact-optional field), ALL of
+    them, each behind the field name, are a sub-list of what the shape loop collects. -/
+theorem objectFields_block (env : Env) (p : Partial) (es : List (V × V)) (shape : List Field) (f : Field)
+    (x : V) (hf : f ∈ shape) (hl : lookupKey f.name es = some x)
+    (hnil : (x.isNil && f.exactOptional) = false) :
+    ((errs env f.m x).map (prepend (.key f.name))).Sublist (objectFields env p es shape).1 := by
+  induction shape with
+  | nil => cases hf
+  | cons g rest ih =>
+    simp only [objectFields]
+    rcases List.mem_cons.1 hf with rfl | h
+    · rw [hl]
+      simp only [hnil, Bool.false_eq_true, ↓reduceIte]
+      unfold errs
+      cases env f.m x with
+      | ok r => exact List.nil_sublist _
+      | err a t => exact List.sublist_append_left _ _
+    · have := ih h
+      generalize objectFields env p es rest = rec at this ⊢
+      obtain ⟨is, n⟩ := rec
+      cases hk : lookupKey g.name es with
+      | none => exact this.trans (List.sublist_append_right _ _)
+      | some y =>
+        dsimp only
+        split
+        · exact this.trans (List.sublist_cons_self _ _)
+        · cases env g.m y with
+          | ok r => exact this
+          | err a t => exact this.trans (List.sublist_append_right _ _)
+
+/-- **C05, object, every issue of a field**. -/
+theorem c05_object_all_issues (cfg : Cfg) (env : Env) (m : Mods) (shape : List Field) (mode : Mode)
+    (catchall : Option Mid) (p : Partial) (cs : List SizeCk) (v : V) (es : List (V × V))
+    (hv : v.isNilLike = false) (hx : extractObject v = some es) (f : Field) (x : V) (hf : f ∈ shape)
+    (hl : lookupKey f.name es = some x) (hnil : (x.isNil && f.exactOptional) = false) :
+    ((errs env f.m x).map (fun c => Seg.key f.name :: c.path)).Sublist
+      ((run cfg env (.object m shape mode catchall p cs) v).issues.map (·.path)) := by
+  have hb := objectFields_block env p es shape f x hf hl hnil
+  simp only [run, engine, hv, Bool.false_eq_true, ↓reduceIte, hx, validateObject]
+  revert hb
+  generalize objectFields env p es shape = rf
+  generalize objectUnknown env shape mode catchall es = ru
+  obtain ⟨fi, fn⟩ := rf
+  obtain ⟨ui, un, unN⟩ := ru
+  intro hb
+  simp only [ofIssues_issues]
+  rw [← prepend_paths]
+  refine (hb.map (·.path)).trans ?_
+  simp only [List.map_append, List.append_assoc]
+  exact List.sublist_append_left _ _
+
+/-- two issues of ONE tuple element under an object field keep two DIFFERENT, correct paths:
+    `Object{pair: Tuple([Object{code, x}])}` with both inner fields bad reports `[pair 0 code]` and `[pair 0 x]`
+    (the composition of `c05_tuple_all_issues` and `c05_object_all_issues` on a concrete nesting via `parseF`). -/
+theorem c05_nested_two_issues :
+    let defs : Mid → Def := fun id =>
+      if id = 0 then .node (.object {} [{ name := 1, m := 1 }] .strip none {} [])
+      else if id = 1 then .node (.tuple {} [2] 1 none [])
+      else if id = 2 then .node (.object {} [{ name := 5, m := 3 }, { name := 6, m := 4 }] .strip none {} [])
+      else .leaf
+    let env : Env := fun _ _ => .err (mk .tooSmall []) []
+    let inner := V.map .str .any (some [(.atom .str 5, .atom .str 50), (.atom .str 6, .atom .str 60)])
+    let input := V.map .str .any (some [(.atom .str 1, .slice .any (some [inner]))])
+    (mresIssues (parseF {} defs env (fun _ v => v) 3 0 input)).map (·.path)
+      = [[.key 1, .idx 0, .key 5], [.key 1, .idx 0, .key 6]] := by
+  decide
+
 end Gozod.C05
